@@ -46,4 +46,5 @@ func init() {
 		"\tswitch dir {\n\tcase ClientToServer:\n\t\treturn s.cToS\n\tcase ServerToClient:\n\t\treturn s.sToC\n\t}\n",
 		"\tif dir == ClientToServer {\n\t\treturn s.cToS\n\t}\n\tif ServerToClient == dir {\n\t\treturn s.sToC\n\t}\n")
 	mut("C03", "connect-502-close-delimited", "proxy.go", "\t\tres = proxyutil.NewResponse(502, nil, req)\n\t\tproxyutil.Warning(res.Header, cerr)\n", "\t\tres = proxyutil.NewResponse(502, nil, req)\n\t\tres.ContentLength = -1\n\t\tproxyutil.Warning(res.Header, cerr)\n", "C03.R7", "ContentLength override")
+	mut("C03", "handshake-callback-unguarded", "mitm/mitm.go", "\tif c.handshakeErrorCallback != nil {\n\t\tc.handshakeErrorCallback(r, err)\n\t}", "\tc.handshakeErrorCallback(r, err)", "C03.R6", "call through c.handshakeErrorCallback")
 }
